@@ -418,3 +418,127 @@ func FuzzEngineMove(f *testing.F) {
 		fuzzReport(t, "C19/enginemove", c, checkC19EngineMove(c))
 	})
 }
+
+// engineSeqCase: a sequence of move strings (legal or not) and take-backs offered to one engine.
+type engineSeqCase struct {
+	FEN string   `json:"fen"`
+	Ops []string `json:"ops"` // "takeback" or a string offered as a move
+}
+
+// checkC19EngineSeq: at every step the string is accepted exactly when it denotes a legal move
+// of the CURRENT position; rejected input and failed take-backs leave everything unchanged.
+var checkC19EngineSeq = def("C19/engineseq", func(c engineSeqCase) error {
+	ctx := context.Background()
+	st, err := oracle.ParseFEN(c.FEN)
+	if err != nil {
+		return err
+	}
+	g := oracle.NewGame(st)
+	e := newPlainEngine()
+	if err := e.Reset(ctx, c.FEN); err != nil {
+		return fmt.Errorf("Reset(%q): %v", c.FEN, err)
+	}
+	var labels []string
+	lastRejected := false
+	for i, op := range c.Ops {
+		beforeFEN, before := e.Position(), takeSnap(e.Board())
+		if op == "takeback" {
+			err := e.TakeBack(ctx)
+			if ok := g.Pop(); ok != (err == nil) {
+				return fmt.Errorf("op %d: TakeBack error=%v with %d moves played", i, err, len(g.Moves))
+			}
+			if lastRejected {
+				labels = append(labels, "takeback-after-rejection")
+			}
+			lastRejected = false
+		} else {
+			om, legal := g.Cur().Pos.FindMove(strings.ToLower(op))
+			err := e.Move(ctx, op)
+			switch {
+			case legal && err != nil:
+				return fmt.Errorf("op %d: %q denotes the legal move %v in %s but was rejected: %v (history: %v)", i, op, om, g.Cur().FEN(), err, c.Ops[:i])
+			case !legal && err == nil:
+				return fmt.Errorf("op %d: %q is not a legal move in %s but was accepted; engine now at %s (history: %v)", i, op, g.Cur().FEN(), e.Position(), c.Ops[:i])
+			case legal:
+				g.Push(om)
+				lastRejected = false
+			default:
+				if e.Position() != beforeFEN {
+					return fmt.Errorf("op %d: rejected %q changed the reported position from %q to %q", i, op, beforeFEN, e.Position())
+				}
+				if d := diffSnap(takeSnap(e.Board()), before, false); d != "" {
+					return fmt.Errorf("op %d: rejected %q changed the game state: %s", i, op, d)
+				}
+				lastRejected = true
+				labels = append(labels, "rejected")
+			}
+		}
+		if got := e.Position(); got != g.Cur().FEN() {
+			return fmt.Errorf("op %d (%s): engine at %q, game at %q", i, op, got, g.Cur().FEN())
+		}
+	}
+	labels = dedup(labels)
+	stats.Case("C19/engineseq", stats.FP(c.FEN, fmt.Sprint(c.Ops)), len(labels) > 0, labels...)
+	return nil
+})
+
+func TestC19_engineseq(t *testing.T) {
+	runRapid(t, "C19/engineseq", 8000, func(t *rapid.T) engineSeqCase {
+		st := gen.Start(t)
+		c := engineSeqCase{FEN: st.FEN()}
+		g := oracle.NewGame(st)
+		pol := gen.DrawPolicy(t)
+		for i, n := 0, rapid.IntRange(1, 14).Draw(t, "nops"); i < n; i++ {
+			p := &g.Cur().Pos
+			switch rapid.IntRange(0, 9).Draw(t, "opkind") {
+			case 0, 1:
+				g.Pop()
+				c.Ops = append(c.Ops, "takeback")
+			case 2, 3: // the move just played again / the opponent's reply offered too early / a move of another position of this game
+				if len(g.Moves) > 0 {
+					c.Ops = append(c.Ops, g.Moves[rapid.IntRange(0, len(g.Moves)-1).Draw(t, "old")].String())
+					if m, ok := p.FindMove(c.Ops[len(c.Ops)-1]); ok {
+						g.Push(m)
+					}
+					continue
+				}
+				fallthrough
+			case 4: // pseudo-legal but illegal, or the other side's move
+				q := *p
+				q.White = !q.White
+				cands := q.PseudoLegal()
+				for _, m := range p.PseudoLegal() {
+					if !p.IsLegal(m) {
+						cands = append(cands, m)
+					}
+				}
+				if len(cands) > 0 {
+					txt := cands[rapid.IntRange(0, len(cands)-1).Draw(t, "bad")].String()
+					c.Ops = append(c.Ops, txt)
+					if m, ok := p.FindMove(txt); ok {
+						g.Push(m)
+					}
+					continue
+				}
+				fallthrough
+			case 5:
+				txt := genMoveText(t)
+				c.Ops = append(c.Ops, txt)
+				if m, ok := p.FindMove(strings.ToLower(txt)); ok {
+					g.Push(m)
+				}
+			default:
+				m, ok := gen.PickMove(t, g, pol)
+				if !ok {
+					continue
+				}
+				g.Push(m)
+				c.Ops = append(c.Ops, m.String())
+			}
+		}
+		return c
+	}, func(c engineSeqCase) error {
+		stats.Sample("C19/engineseq", c)
+		return checkC19EngineSeq(c)
+	})
+}
